@@ -1,5 +1,5 @@
 """C13 — splitting respects the size limit and never corrupts text
-(Splitter.tla, SplitterMC.tla, SplitterProf.tla, SplitterTrace.tla, Overlap.tla, OverlapMC.tla, OverlapTrace.tla)."""
+(Splitter.tla, SplitterMC.tla, SplitterProf.tla, SplitterTrace.tla, Overlap.tla, OverlapMC.tla, OverlapTrace.tla, OverlapReuse.tla)."""
 import copy, json, os, random, shutil
 from concurrent.futures import ThreadPoolExecutor
 from lib import vlib
@@ -16,7 +16,9 @@ EVIDENCE = dict(
          "profiles (all units, limits down to 1) go through SplitToSize, ChunkDocumentWithConfig and NewChunkerWithConfig().Chunk; "
          "(3) TLC-enumerated and random overlap configurations (3 chunks x strategy x size x bounds x PreserveWords x heading "
          "context) go through GenerateOverlap, ApplyOverlapToChunks and ChunkWithOverlapEnabled. Every call is one trace event "
-         "judged by SplitterTrace.tla / OverlapTrace.tla. Non-trivial = text that needed >= 1 split, or a non-empty overlap; "
+         "judged by SplitterTrace.tla / OverlapTrace.tla; reuse: one SizeCalculator / OverlapGenerator per case answers several texts "
+         "(Reuse events: equal to a fresh object's answer) and every ApplyOverlapToChunks call, also a second one on the same chunks, "
+         "leaves a Frame event (fields changed per chunk). Non-trivial = text that needed >= 1 split, or a non-empty overlap; "
          "distinct by abstract case.",
     assumptions=["pieces are located in the original text by their non-white bytes (white space is not conserved by design)",
                  "a call that does not return within 20 s counts as non-terminating",
@@ -32,6 +34,14 @@ NOTES = """Interpretation choices (soundness first):
   (1 / TokensPerChar); the trace carries cpt = 1 / TokensPerChar (10, 4, 2, 1) and the limit position of the probes is
   max x cpt bytes.  The overlap dimension is independent of the size configuration in the code (the overlap generator never
   reads SizeConfig) and stays enumerated by OverlapMC.tla.
+* Reuse: rag exposes no setters on SizeCalculator / OverlapGenerator (the configuration is fixed by the constructor), so
+  reuse means one object asked about several texts (the text, a shorter, a longer, another of the same length, the first
+  again; other methods called in between): every answer must equal a fresh object's.  ApplyOverlapToChunks is documented (by
+  its code comments) to write the overlap into the Text of the chunks it is given and to update CharCount / WordCount /
+  EstimatedTokens; the frame asserted is exactly that: no other field changes, the first chunk is untouched, every text
+  still ends with the text that was given.  Applying it a second time to the same chunks is judged by the same contract
+  relative to the texts the second call was given (the statement does not forbid a second overlap; it must not be anything
+  but a bounded suffix of the given neighbour).
 * White space: anything unicode.IsSpace; no-break and ideographic spaces are white but are not counted as break opportunities.
 * Conservation is checked on bytes of non-white characters, in order; white space may be dropped or replaced.
 * UTF-8: every input is valid UTF-8, so every piece and every overlap must be.
@@ -79,11 +89,23 @@ def _validate(ctx, name, module, events, origin, describe):
         sig, what = describe(ev, rp["clause"])
         out["viol"].append((sig, what, {"mode": origin[rp["line"] - 1][0], "case": origin[rp["line"] - 1][1],
                                         "clause": rp["clause"], "observed": {k: v for k, v in ev.items() if k != "t"},
-                                        "text_runs": ev["t"][:60]}))
+                                        "text_runs": ev.get("t", [])[:60]}))
     return out
 
 
+def _reuse_desc(ev, clause):
+    if ev["event"] == "Frame":
+        return ("C13:frame:ApplyOverlapToChunks",
+                "OverlapTrace rejects what ApplyOverlapToChunks (call %s on the same chunks) did to the chunks it was given (clause %s): "
+                "changed fields per chunk %s, text still ends with the given text %s"
+                % (ev.get("call"), clause, json.dumps(ev["changed"]), ev["kept"]))
+    return ("C13:reuse:%s" % ev.get("api"),
+            "call %s on a reused %s does not return what a fresh object returns for the same input" % (ev.get("call"), ev.get("api")))
+
+
 def _split_desc(ev, clause):
+    if ev["event"] != "Split":
+        return _reuse_desc(ev, clause)
     fam = SPLIT_FAMILY.get(ev.get("api"), ev.get("api"))
     sig = "C13:%s:%s" % (clause, fam)
     sizes = [r[1] - r[0] for r in ev["r"]]
@@ -97,6 +119,8 @@ OVERLAP_FAMILY = {"GenerateOverlap": "generate"}
 
 
 def _overlap_desc(ev, clause):
+    if ev["event"] != "Overlap":
+        return _reuse_desc(ev, clause)
     api = ev.get("api", "?")
     sig = "C13:%s:overlap-%s" % (clause, OVERLAP_FAMILY.get(api.split(":")[0], "apply"))
     what = ("OverlapTrace rejects an overlap produced by %s (%s strategy, bounds %d..%d), clause %s: overlap of %d bytes / %d "
@@ -114,7 +138,8 @@ def _collect(results, mode, cases, kind):
             continue
         case = cases[r["case"]] if cases is not None else {"seed_request": r["case"]}
         for e in r.get("events") or []:
-            if e["event"] == kind:
+            if (e["event"] == kind or (kind == "Overlap" and e["event"] == "Frame")
+                    or (e["event"] == "Reuse" and (e.get("api") == "SizeCalculator") == (kind == "Split"))):
                 evs.append(e)
                 org.append((mode, case))
     return evs, org
@@ -130,7 +155,12 @@ def run(ctx):
           ("Overlap", "Overlap_mc.cfg", {}),
           ("Overlap", "Overlap_mc_text.cfg", {"expect_violation": True}),
           ("Overlap", "Overlap_mc_head.cfg", {"expect_violation": True}),
-          ("Overlap", "Overlap_mc_keep.cfg", {"expect_violation": True})]
+          ("Overlap", "Overlap_mc_keep.cfg", {"expect_violation": True}),
+          # reuse of one generator (nothing retained between calls) and the frame of ApplyOverlapToChunks over two calls
+          ("OverlapReuse", "OverlapReuse_mc.cfg", {}),
+          ("OverlapReuse", "OverlapReuse_mc_memo.cfg", {"expect_violation": True}),
+          ("OverlapReuse", "OverlapReuse_mc_first.cfg", {"expect_violation": True}),
+          ("OverlapReuse", "OverlapReuse_mc_meta.cfg", {"expect_violation": True})]
     gens = [("SplitterMC", "Splitter_gen_quick.cfg" if q else "Splitter_gen_thorough.cfg"),
             ("SplitterProf", "SplitterProf_gen_quick.cfg" if q else "SplitterProf_gen.cfg"), ("OverlapMC", "OverlapMC_gen.cfg"),
             ("SplitterProf", "SplitterProf_probe.cfg")]
@@ -182,7 +212,7 @@ def run(ctx):
         ctx.extra["events_" + name] = len(evs)
         for sig, what, rp in o["viol"]:
             ctx.violation(sig, what, rp)
-    long_ev = next((e for e in jobs[1][2] if e["npieces"] >= 3), None)
+    long_ev = next((e for e in jobs[1][2] if e.get("npieces", 0) >= 3), None)
     if long_ev:
         ctx.sample({"split_event": {k: v for k, v in long_ev.items() if k != "t"}, "text": _runs_desc(long_ev["t"])})
 
